@@ -4,7 +4,7 @@
    the aggregator's updates, rtts = the round-trip times (ns) of its completed probes, oldest first.
    IEEE-754 rounding is outside the theorems (DESIGN 3.4). *)
 From Coq Require Import QArith.
-From TV Require Import Base.Result Core.Types Core.Flows Core.State Proofs.HopProofs.
+From TV Require Import Base.Result Core.Types Core.Flows Core.State Proofs.HopProofs Proofs.HopHistory.
 Open Scope Z_scope.
 
 (* every update update_for_probe performs on the hop of a probe keeps it inside hop_reach *)
@@ -41,6 +41,75 @@ Theorem c05_statistics : forall ms h rtts, hop_reach ms h rtts ->
 Proof.
   intros ms h rtts H. destruct (hop_reach_inv ms h rtts H) as [_ S]. destruct S. repeat split; assumption.
 Qed.
+
+(* Refinement to a recomputation.  A hop's history is the list of updates the aggregator applied to it:
+   HC c (a completed probe), HU p failed fwd bwd (an awaited / failed probe with its loss attribution),
+   HN n (NAT status).  Every reachable hop is hop_run of such a list (c05_reachable_is_run), and hop_run equals,
+   field by field, what a direct recomputation from the list yields: counts by filtering, the bounded newest-first
+   sample history as firstn max_samples of the reversed durations (0 for an unanswered probe), jitter = the last of
+   the successive |rtt_i - rtt_(i-1)| once there are two samples, jmax = their maximum (first sample against 0),
+   the interarrival jitter as the RFC 3550-style fold, last-probe details from the last probe event, ICMP type /
+   TOS / extensions from the last completed probe, NAT status from the last HN, and per-address counts equal to
+   the number of completed probes answered from that address (keys unique). *)
+Theorem c05_reachable_is_run : forall ms h rtts, hop_reach ms h rtts -> exists es, h = hop_run ms es /\ ev_rtts es = rtts.
+Proof. exact hop_reach_events. Qed.
+
+Theorem c05_recomputation : forall ms es, let h := hop_run ms es in
+  h_sent h = count is_probe es /\ h_failed h = count is_failed es /\
+  h_fwd_lost h = count is_fwd es /\ h_bwd_lost h = count is_bwd es /\
+  h_recv h = Z.of_nat (length (ev_rtts es)) /\
+  (0 <= ms -> h_samples h = firstn (Z.to_nat ms) (rev (ev_durs es))) /\
+  h_last h = match ev_rtts es with [] => None | _ => Some (last (ev_rtts es) 0) end /\
+  h_jitter h = match ev_rtts es with [] | [_] => None | _ => Some (last (jitters 0 (ev_rtts es)) 0) end /\
+  omax (h_jmax h) (jitters 0 (ev_rtts es)) /\
+  (h_jinta h == fold_left jinta_step (jitters 0 (ev_rtts es)) 0)%Q /\
+  match last_probe es with
+  | Some p => h_ttl h = p_ttl p /\ h_last_src_port h = p_src_port p /\
+              h_last_dest_port h = p_dest_port p /\ h_last_sequence h = p_sequence p
+  | None => h_ttl h = 0 /\ h_last_src_port h = 0 /\ h_last_dest_port h = 0 /\ h_last_sequence h = 0
+  end /\
+  match last_complete es with
+  | Some c => h_last_icmp h = Some (c_icmp c) /\ h_tos h = c_tos c /\ h_exts h = c_exts c
+  | None => h_last_icmp h = None /\ h_tos h = None /\ h_exts h = None
+  end /\
+  h_last_nat h = last_nat es /\
+  (forall a, acount (h_addrs h) a = Z.of_nat (length (filter (addr_eqb a) (ev_hosts es)))) /\
+  NoDup (map fst (h_addrs h)).
+Proof.
+  intros ms es h. destruct (hop_run_is_recomputation ms es) as [A B C D E F G H I J K L M N O P].
+  repeat (split; [assumption|]). assumption.
+Qed.
+
+(* the derived figures (Hop::loss_pct / forward_loss_pct / backward_loss_pct, avg_ms, stddev_ms squared):
+   percentages lie in 0..100, best <= average <= worst, and the variance is the sample variance
+   (n (n-1) var = n * S2 - S1^2) of the completed round-trip times *)
+Theorem c05_derived : forall ms h rtts, hop_reach ms h rtts ->
+  (0 <= hop_loss_pct h /\ hop_loss_pct h <= 100)%Q /\
+  (0 <= hop_fwd_loss_pct h /\ hop_fwd_loss_pct h <= 100)%Q /\
+  (0 <= hop_bwd_loss_pct h /\ hop_bwd_loss_pct h <= 100)%Q /\
+  (forall b w, 0 < h_recv h -> h_best h = Some b -> h_worst h = Some w ->
+     (msq b <= hop_avg_ms h /\ hop_avg_ms h <= msq w)%Q) /\
+  (1 < h_recv h ->
+     (hop_variance h * inject_Z (h_recv h) * inject_Z (h_recv h - 1) ==
+      qsum (map (fun x => msq x * msq x) rtts) * inject_Z (h_recv h) - qsum (map msq rtts) * qsum (map msq rtts))%Q).
+Proof.
+  intros ms h rtts H. destruct (hop_reach_inv ms h rtts H) as [L S].
+  pose proof L as [Lr Lf Ls _ Lfw Lbw Lloss _ _ _ _ _ _].
+  assert (Hr : 0 <= h_recv h) by lia.
+  split; [apply pct_of_range; lia|].
+  split; [apply pct_of_range; lia|].
+  split; [apply pct_of_range; lia|].
+  split; [intros b w Hn Hb Hw; exact (avg_between ms h rtts b w L Hn Hb Hw)|].
+  intros Hn. exact (variance_spec h rtts S Hn).
+Qed.
+
+(* non-vacuity of the recomputation: one completed, one lost, one completed probe at one hop *)
+Example c05_recomputation_example :
+  let pr s := {| p_sequence := s; p_identifier := 0; p_src_port := 0; p_dest_port := 0; p_ttl := 1; p_round := 0; p_sent := 0; p_flags := 0 |} in
+  let c s r := {| c_probe := pr s; c_host := [1;1;1;1]; c_received := r; c_icmp := INotApplicable; c_tos := None; c_expected := None; c_actual := None; c_exts := None |} in
+  let h := hop_run 2 [HC (c 1 10000000); HU (pr 2) false true false; HC (c 3 12000000)] in
+  h_samples h = [12000000; 0] /\ h_jitter h = Some 2000000 /\ h_jmax h = Some 10000000 /\ h_sent h = 3 /\ h_fwd_lost h = 1.
+Proof. vm_compute. repeat split; reflexivity. Qed.
 
 Example c05_example :
   let c r := {| c_probe := {| p_sequence := 1; p_identifier := 0; p_src_port := 0; p_dest_port := 0; p_ttl := 1; p_round := 0; p_sent := 0; p_flags := 0 |};
